@@ -233,6 +233,9 @@ impl World {
                                             BindType::Datagram => 3,
                                         };
                                         log.app(AppEv::BindSeen { side, flow_id: req.flow_id(), btype: bt, host: req.host().to_vec(), port: req.port(), answer: format!("{ans:?}") });
+                                        if pol.ping_first {
+                                            req.manual_ping().ok();
+                                        }
                                         match ans {
                                             BindAnswer::Accept => {
                                                 req.reply(true).ok();
